@@ -339,6 +339,25 @@ func TestHybridEncapsulations(t *testing.T) {
 		}
 		distinctOnly(t, "hybrid-enc", "hybrid-enc/"+c.name, encs)
 		distinctOnly(t, "hybrid-ct", "hybrid-ciphertext/"+c.name, cts)
+		// every part of the encapsulation is fresh, not only the whole: the encapsulated key cut into
+		// 32-byte pieces (the X25519 share of X-Wing is the last one), each piece never repeating.
+		// Every piece of an EC point, an X25519 share or an ML-KEM ciphertext is a function of the
+		// fresh randomness with at least 31 bytes of entropy. (Added after seeded change C20h: the
+		// X25519 half of X-Wing cached per recipient while the ML-KEM half stayed fresh.)
+		for off := 0; off < c.encLen; off += 32 {
+			end := min(off+32, c.encLen)
+			if end-off < 16 {
+				off = end - 16 // the last, short piece is widened backwards
+			}
+			part := make([][]byte, len(encs))
+			for i, e := range encs {
+				part[i] = e[off:end]
+			}
+			distinctOnly(t, "hybrid-enc-part", fmt.Sprintf("hybrid-enc/%s/bytes[%d:%d]", c.name, off, end), part)
+			if end == c.encLen {
+				break
+			}
+		}
 	}
 }
 
